@@ -25,17 +25,6 @@ COMMON_ASSUMPTIONS = [
 
 PROPS = {}
 
-PROPS["C01"] = {
-    "harnesses": [
-        H("c01::long_roundtrip", functions=["encode::encode_internal", "decode::decode_internal", "util::zig_i64", "util::encode_variable", "util::zag_i64", "util::decode_variable"],
-          bounds="all i64 x 8 long-backed schema kinds; unwind 12"),
-        H("c01::int_roundtrip", functions=["encode::encode_internal", "decode::decode_internal", "util::zig_i32", "util::zag_i32"],
-          bounds="all i32 x {int,date,time-millis}; unwind 12"),
-    ],
-    "outside": "",
-    "assumptions": [],
-}
-
 DEC_FUNCS = ["decode::decode_internal", "util::zag_i64", "util::zag_i32", "util::decode_variable", "decode::decode_len", "util::safe_len", "types::Value::validate_internal"]
 DEC = [
     H("dec::null_bool", functions=DEC_FUNCS, bounds="all byte strings of length <= 2"),
@@ -56,7 +45,10 @@ DEC = [
 ]
 ENC_FUNCS = ["encode::encode_internal", "encode::encode_bytes", "util::zig_i64", "util::zig_i32", "util::encode_variable"]
 ENC = [
-    H("enc::ints", functions=ENC_FUNCS, bounds="all i64 x 8 long kinds, all i32 x 3 int kinds"),
+    H("enc::long_", functions=ENC_FUNCS, bounds="all i64 under schema long"),
+    H("enc::int_", functions=ENC_FUNCS, bounds="all i32 under schema int"),
+    H("enc::logical_kinds", functions=ENC_FUNCS, bounds="9 int/long-backed logical kinds x values in [-8192, 8191]"),
+    H("enc::spec_varint_roundtrip", functions=["(reference lemma: harness spec::enc_long / spec::dec_long only)"], bounds="all i64"),
     H("enc::scalars", functions=ENC_FUNCS, bounds="null, both booleans, all f32 and f64 bit patterns"),
     H("enc::bytes_string_fixed", functions=ENC_FUNCS, bounds="all payloads of 0..=4 bytes (strings: all well-formed UTF-8)"),
     H("enc::enum_", functions=ENC_FUNCS, bounds="3 symbols, Enum(i,s) and String(s) forms"),
@@ -69,8 +61,11 @@ C13_FUNCS = ["encode::encode_internal", "encode::encode_bytes", "util::encode_va
 PROPS["C13"] = {
     "harnesses": [
         H("c13::scalars", functions=C13_FUNCS, bounds="boolean / all f32 / all f64 x sinks accepting 1..255 bytes on each of the first 4 calls x one failing call (index 0..5 or none) of kind Other/Interrupted"),
-        H("c13::bytes_like", functions=C13_FUNCS, bounds="bytes/string/fixed with 3-byte payload x same sink family"),
-        H("c13::duration_union", functions=C13_FUNCS, bounds="all durations; union[null,boolean] branch 1 x same sink family"),
+        H("c13::bytes_", functions=C13_FUNCS, bounds="bytes with 3-byte payload x same sink family", timeout_q=600),
+        H("c13::string_", tier="thorough", functions=C13_FUNCS, bounds="string with 3-byte ASCII payload x same sink family"),
+        H("c13::fixed_", functions=C13_FUNCS, bounds="fixed(3) x same sink family"),
+        H("c13::duration_", functions=C13_FUNCS, bounds="all durations x same sink family", timeout_q=600),
+        H("c13::union_", functions=C13_FUNCS, bounds="union[null,boolean] branch 1 x same sink family"),
         H("c13::array_", functions=C13_FUNCS, bounds="array<boolean> with 2 items x same sink family"),
     ],
     "outside": "more than 4 calls with independent accepted lengths (later calls accept everything); payloads longer than 3 bytes",
@@ -100,14 +95,30 @@ C14_FUNCS = ["reader::Reader::next", "reader::block::Block::read_next", "reader:
 PROPS["C14"] = {
     "harnesses": [
         H("c14::cuts_a", functions=C14_FUNCS, bounds="2 blocks x 1 long item (19 bytes each), cut at offsets {0,1,2,3,4,10,18,19}, all one-byte item values"),
-        H("c14::cuts_b", functions=C14_FUNCS, bounds="same region, cut at {20,21,22,23,30,37,38}"),
-        H("c14::cuts_c", tier="thorough", functions=C14_FUNCS, bounds="same region, cut at {5..9,11..17}"),
-        H("c14::cuts_d", tier="thorough", functions=C14_FUNCS, bounds="same region, cut at {24..29,31..36}"),
+        H("c14::cuts_b", functions=C14_FUNCS, bounds="same region, cut at {20,21,37,38}"),
         H("c14::cuts_two_byte_count", functions=C14_FUNCS, bounds="1 block of 64 zero-width items (2-byte count varint), cut at {0,1,2,3,10,18,19}"),
-        H("c14::marker_first_lo", functions=C14_FUNCS, bounds="first block's marker bytes 0..7 x all 255 non-zero xor masks"),
-        H("c14::marker_first_hi", tier="thorough", functions=C14_FUNCS, bounds="first block's marker bytes 8..15 x all masks"),
-        H("c14::marker_second_lo", tier="thorough", functions=C14_FUNCS, bounds="second block's marker bytes 0..7 x all masks"),
-        H("c14::marker_second_hi", functions=C14_FUNCS, bounds="second block's marker bytes 8..15 x all masks"),
+        H("c14::cuts_b2", tier="thorough", functions=C14_FUNCS, bounds="same region, cut at {22,23,30}"),
+        H("c14::cuts_c", tier="thorough", functions=C14_FUNCS, bounds="same region, cut at {5..9,11}"),
+        H("c14::cuts_c2", tier="thorough", functions=C14_FUNCS, bounds="same region, cut at {12..17}"),
+        H("c14::cuts_d", tier="thorough", functions=C14_FUNCS, bounds="same region, cut at {24..27}"),
+        H("c14::cuts_d2", tier="thorough", functions=C14_FUNCS, bounds="same region, cut at {28,29,31,32}"),
+        H("c14::cuts_d3", tier="thorough", functions=C14_FUNCS, bounds="same region, cut at {33..36}"),
+        H("c14::marker_first_0", tier="quick", functions=C14_FUNCS, bounds="first block's marker bytes (0, 15) x all 255 non-zero xor masks"),
+        H("c14::marker_first_1", tier="thorough", functions=C14_FUNCS, bounds="first block's marker bytes (1, 2) x all 255 non-zero xor masks"),
+        H("c14::marker_first_2", tier="thorough", functions=C14_FUNCS, bounds="first block's marker bytes (3, 4) x all 255 non-zero xor masks"),
+        H("c14::marker_first_3", tier="thorough", functions=C14_FUNCS, bounds="first block's marker bytes (5, 6) x all 255 non-zero xor masks"),
+        H("c14::marker_first_4", tier="thorough", functions=C14_FUNCS, bounds="first block's marker bytes (7, 8) x all 255 non-zero xor masks"),
+        H("c14::marker_first_5", tier="thorough", functions=C14_FUNCS, bounds="first block's marker bytes (9, 10) x all 255 non-zero xor masks"),
+        H("c14::marker_first_6", tier="thorough", functions=C14_FUNCS, bounds="first block's marker bytes (11, 12) x all 255 non-zero xor masks"),
+        H("c14::marker_first_7", tier="thorough", functions=C14_FUNCS, bounds="first block's marker bytes (13, 14) x all 255 non-zero xor masks"),
+        H("c14::marker_second_0", tier="quick", functions=C14_FUNCS, bounds="second block's marker bytes (0, 15) x all 255 non-zero xor masks"),
+        H("c14::marker_second_1", tier="thorough", functions=C14_FUNCS, bounds="second block's marker bytes (1, 2) x all 255 non-zero xor masks"),
+        H("c14::marker_second_2", tier="thorough", functions=C14_FUNCS, bounds="second block's marker bytes (3, 4) x all 255 non-zero xor masks"),
+        H("c14::marker_second_3", tier="thorough", functions=C14_FUNCS, bounds="second block's marker bytes (5, 6) x all 255 non-zero xor masks"),
+        H("c14::marker_second_4", tier="thorough", functions=C14_FUNCS, bounds="second block's marker bytes (7, 8) x all 255 non-zero xor masks"),
+        H("c14::marker_second_5", tier="thorough", functions=C14_FUNCS, bounds="second block's marker bytes (9, 10) x all 255 non-zero xor masks"),
+        H("c14::marker_second_6", tier="thorough", functions=C14_FUNCS, bounds="second block's marker bytes (11, 12) x all 255 non-zero xor masks"),
+        H("c14::marker_second_7", tier="thorough", functions=C14_FUNCS, bounds="second block's marker bytes (13, 14) x all 255 non-zero xor masks"),
     ],
     "outside": "the file header (magic, metadata map with the JSON schema, marker): header parsing goes through serde_json and the schema parser and is not symbolically executable; the Block reader is put into the state read_header leaves it in. Compressed codecs. Files with more than 2 blocks / items wider than one byte.",
     "assumptions": ["Block state after read_header is {marker, codec null, writer schema, empty buffer}, constructed directly"],
@@ -122,4 +133,72 @@ PROPS["C18"] = {
     ],
     "outside": "the canonical form text the fingerprint is computed from (text processing); typed (derive-based) writers/readers; sequences longer than 2 calls",
     "assumptions": ["the 10 expected header bytes are a fixed concrete header; the fingerprint arithmetic is covered by the Rabin harnesses"],
+}
+
+
+def _pick(lst, names, quick=()):
+    """harnesses from lst by name; those not in `quick` are demoted to the thorough tier"""
+    out = []
+    for h in lst:
+        if h.name in names:
+            tier = h.tier if (h.name in quick and h.tier == "quick") else "thorough"
+            out.append(H(h.name, tier=tier, timeout_q=h.timeout_q, timeout_t=h.timeout_t, functions=h.functions, bounds=h.bounds, expect_fail=h.expect_fail))
+    return out
+
+
+_ALL_DEC = [h.name for h in DEC]
+_ALL_ENC = [h.name for h in ENC]
+ENCDEC_OUTSIDE = ("maps and arrays on the decode side (CBMC 6.11 segfaults in its simplifier when a Value is pushed into a field-sensitive heap array; "
+                  "array/map *encoding* is covered under C13), decimals / big-decimals / uuids (num-bigint and uuid parsing loops), recursive schemas and Ref resolution, "
+                  "strings/bytes longer than 3-4 bytes, nesting deeper than one level, schemas obtained from the parser (schemas are constructed)")
+PROPS["C01"] = {
+    "harnesses": _pick(ENC, _ALL_ENC, quick={"enc::long_", "enc::scalars", "enc::bytes_string_fixed", "enc::spec_varint_roundtrip"})
+                 + _pick(DEC, _ALL_DEC, quick={"dec::long_full", "dec::float_double", "dec::bytes_", "dec::string_2", "dec2::union_", "dec2::record_"}),
+    "outside": ENCDEC_OUTSIDE + ". Round trip is decided compositionally: library encode == reference encode (all values), library decode == reference decode (all byte strings), reference decode o encode == id (lemma).",
+    "assumptions": ["round-trip identity is derived from three solver-decided facts (see outside); it is not a single end-to-end query"],
+}
+PROPS["C02"] = {
+    "harnesses": _pick(ENC, _ALL_ENC, quick={"enc::int_", "enc::logical_kinds", "enc::enum_", "enc::scalars"})
+                 + _pick(DEC, _ALL_DEC, quick={"dec::int_full", "dec::logical_kinds", "dec::fixed_", "dec::enum_", "dec2::duration_"}),
+    "outside": ENCDEC_OUTSIDE + ". Multi-block / negative-count array and map layouts on the read side are not decided (same CBMC crash).",
+    "assumptions": ["the reference codec in harness/src/spec.rs is written from the Avro 1.11 specification text"],
+}
+PROPS["C06"] = {
+    "harnesses": _pick(DEC, _ALL_DEC, quick={"dec::null_bool", "dec::int_full", "dec::enum_", "dec::string_1", "dec::string_3", "dec::bytes_", "dec2::union_", "dec2::record_"}),
+    "outside": ENCDEC_OUTSIDE + ". Agreement of the schema-aware serde deserializer with the generic decoder is not decided.",
+    "assumptions": ["conformance oracle = the library's own Value::validate_internal for leaf shapes (as the property prescribes); for union/record the harness checks variant and payload structurally"],
+}
+_C19 = {h.name: h for h in PROPS["C19"]["harnesses"]}
+_C14 = {h.name: h for h in PROPS["C14"]["harnesses"]}
+_C18 = {h.name: h for h in PROPS["C18"]["harnesses"]}
+PROPS["C05"] = {
+    "harnesses": _pick(DEC, _ALL_DEC, quick={"dec::null_bool", "dec::long_full", "dec::string_3", "dec::fixed_", "dec::logical_kinds"})
+                 + [_C19["c19::limit_first_set_wins"], _C19["c19::limit_applied_by_decode_len"], _C14["c14::cuts_two_byte_count"], _C14["c14::cuts_a"], _C18["c18::reader_rejects_foreign_header"]],
+    "outside": ENCDEC_OUTSIDE + ". Container header / embedded schema JSON, decompression, the serde deserializer, fixed sizes above 4 (the unguarded `vec![0; size]` for huge fixed sizes is therefore not exercised), block counts of zero-width items beyond one block.",
+    "assumptions": ["no-panic = every Rust panic site (bounds, overflow in debug, unwrap/expect, unreachable) and every pointer check CBMC instruments is a proof obligation of the harness",
+                    "termination = unwinding assertions: every loop finishes within the stated unwind bound"],
+}
+
+PROPS["C11"] = {
+    "zregex": True,
+    "harnesses": [
+        H("c11::union_rules_pairs", functions=["schema::union::UnionSchema::new", "schema::union::UnionSchemaBuilder::variant", "schema::union::UnionSchemaBuilder::build", "schema::union::schema_to_base_schemakind"],
+          bounds="all ordered pairs of branches from a 9-kind alphabet (null, boolean, int, long, string, date, fixed A, fixed B, union)"),
+    ],
+    "outside": "totality and exactness of Schema::parse_str on arbitrary text (JSON kinds at every position, duplicate keys, defaults, references): the parser runs serde_json, regex-lite and name tables keyed by symbolic strings and is not symbolically executable. Claimed are only: the four name grammars (z3, unbounded strings) and the union construction rules.",
+    "assumptions": ["regex-lite implements the documented semantics of the translated regex subset"],
+}
+
+C07_FUNCS = ["types::Value::validate_internal", "writer::datum::GenericDatumWriter::write_value_ref", "encode::encode_internal", "schema::union::UnionSchema::find_schema_with_known_schemata"]
+PROPS["C07"] = {
+    "harnesses": [
+        H("c07::long_schema", functions=C07_FUNCS, bounds="schema long: Long / widened Int for all i32, plus rejected Boolean and Float"),
+        H("c07::enum_schema", functions=C07_FUNCS, bounds="enum{a,b,c}: Enum(i,s) and String(s) forms incl. mismatching symbol, index out of range, unknown string"),
+        H("c07::fixed_schema_", functions=C07_FUNCS, bounds="fixed(2): Fixed and Bytes forms, right and wrong lengths, all payload bytes"),
+        H("c07::union_explicit", functions=C07_FUNCS, bounds="union[null,long]: explicit Union(i,v) forms (matching / mismatching / no such branch), bare Null; all i16 payloads"),
+        H("c07::finding_bare_value_in_union", functions=C07_FUNCS, bounds="union[null,long], bare Long(n), all i16", expect_fail=True),
+        H("c07::finding_float_for_double", functions=C07_FUNCS, bounds="schema double, Float(x) for all non-NaN f32", expect_fail=True),
+    ],
+    "outside": "records (Map-for-record, missing nullable fields), arrays/maps of unions, decimals; the container writer and single-object writer paths (they call the same validate_internal + encode_internal pair); schemas from the parser",
+    "assumptions": ["canonical representation = reference encoding (harness/src/spec.rs) of the value validation matched it against"],
 }
